@@ -69,6 +69,11 @@ pub fn drive(ctx: &mut Ctx) {
 		like!(ctx, "Bytes/&[u8]", bytes::Bytes => &[u8], Vec<u8>, |b| bytes::Bytes::from(b.clone()));
 		like!(ctx, "Vec<u8>/Bytes", Vec<u8> => bytes::Bytes, bytes::Bytes, |b| b.to_vec());
 		like!(ctx, "&[u8]/Bytes", &[u8] => bytes::Bytes, bytes::Bytes, |b| &b[..]);
+		// byte-buffer aliases followed by more data (the shared-buffer back-end must find the next value where it starts)
+		like!(ctx, "(Vec<u8>,u32)/(Bytes,u32)", (Vec<u8>, u32) => (bytes::Bytes, u32), (bytes::Bytes, u32), |b| (b.0.to_vec(), b.1));
+		like!(ctx, "(Vec<u8>,Vec<u8>)/(Bytes,Bytes)", (Vec<u8>, Vec<u8>) => (bytes::Bytes, bytes::Bytes), (bytes::Bytes, bytes::Bytes), |b| (b.0.to_vec(), b.1.to_vec()));
+		like!(ctx, "Vec<Vec<u8>>/Vec<Bytes>", Vec<Vec<u8>> => Vec<bytes::Bytes>, Vec<bytes::Bytes>, |b| b.iter().map(|x| x.to_vec()).collect());
+		like!(ctx, "(u8,&[u8],u16)/(u8,Bytes,u16)", (u8, &[u8], u16) => (u8, bytes::Bytes, u16), (u8, bytes::Bytes, u16), |b| (b.0, leak_vec(b.1.to_vec()), b.2));
 	}
 	// element-wise lifts
 	like!(ctx, "Option<&T>/Option<T>", Option<&u32> => Option<u32>, Option<u32>, |b| b.as_ref());
